@@ -250,14 +250,16 @@ pub fn gen_replicas(prop: &str, r: &mut Prng, seed: u64, run: u64, thorough: boo
         return gen_threshold(prop, r, seed, run);
     }
     let mut cfg = GenCfg::draw(r);
-    cfg.names = cfg.names.min(2); // over-long names are C07's business
+    // over-long names (binary transports cut them at 255 bytes, which the Trunc255 projection models) on a share of the runs
+    let long_names = r.chance(1, 8);
+    cfg.names = if long_names { 3 } else { cfg.names.min(2) };
     match prop {
         "C01" => {
             cfg.max_recs = [r.usize_below(3), r.usize_below(2), r.usize_below(2)];
             if r.chance(1, 12) {
                 cfg.n_terms = r.urange(45, 300);
             }
-            cfg.names = 0;
+            cfg.names = if long_names { 3 } else { 0 };
         }
         "C02" | "C03" => {
             cfg.max_recs = [r.urange(1, 14), r.urange(0, 10), r.urange(0, 8)];
@@ -271,7 +273,7 @@ pub fn gen_replicas(prop: &str, r: &mut Prng, seed: u64, run: u64, thorough: boo
                 cfg.n_terms = cfg.n_terms.min(20);
             }
             cfg.rec_no_terms = r.chance(1, 2);
-            cfg.names = cfg.names.min(1);
+            cfg.names = if long_names { 3 } else { cfg.names.min(1) };
             if r.chance(1, 15) {
                 // annotated terms with more than 30 ancestors
                 cfg.n_terms = r.urange(45, 200);
@@ -280,7 +282,7 @@ pub fn gen_replicas(prop: &str, r: &mut Prng, seed: u64, run: u64, thorough: boo
         }
         "C19" => {
             cfg.std_roots = true;
-            cfg.names = 0;
+            cfg.names = if long_names { 3 } else { 0 };
         }
         "C09" => {
             cfg.std_roots = true;
